@@ -26,11 +26,14 @@ MANIFEST = dict(
          "with ==, <=> antisymmetric; sequences are the lexicographic extension; sort returns a sorted stable permutation and every stable "
          "sort agrees with it; min/max pick the first extremal element; incomparable kinds give Err. f64 is modelled by its bit pattern with "
          "an exact Gallina decoder (no Reals/Flocq). The model is tied to /repo on every run by the full pool x pool grid of ten operators, "
-         "chains, sorts and min/max, compared with the model and with an independent Fraction oracle.",
+         "chains, sorts and min/max, and a Rust-API-level grid of NNum partial_cmp/==/min/max/total_eq, each compared with the model and "
+         "with an independent Fraction oracle; the order laws are also checked on the implementation's own answers over the whole pool^3.",
     note="Trusted: Coq kernel; hand-written model Num/FloatBits.v + Num/Cmp.v (tie to code is the correspondence run = differential "
          "testing on the pool grid); num-bigint/num-rational/IEEE primitives taken at their mathematical meaning (Z, Q, decoded value); "
          "Vec::sort_by taken as *a* stable sort (theorem: all stable sorts by a total preorder agree); extraction+OCaml runner; Rust harness; "
-         "Python oracle. Dictionary equality, string sort by char, NNum::min/max (unreachable from the language) are not compared.",
+         "Python oracle. NNum::min/max/total_eq and total_cmp_* (unreachable from the language) are compared through the Rust API "
+         "(harness bin c08: NNum values built from explicit representations and raw bit patterns). Dictionary equality and string sort "
+         "by char are not compared.",
     design="6-C08")
 
 NAN_BITS = 0x7ff8000000000000
